@@ -90,6 +90,14 @@ MMod(a, d) ==
   IN FoldLeft(LAMBDA acc, i : LET s == MShl(d, nb - i) IN IF MCmp(acc, s) >= 0 THEN MSub(acc, s) ELSE acc,
               a, [i \in 1 .. nb + 1 |-> i - 1])
 
+\* floor and ceiling of the square root (bit by bit from the top)
+MBits(a) == LB * Len(a)
+MISqrt(a) ==
+  LET nb == (MBits(a) + 1) \div 2
+  IN FoldLeft(LAMBDA r, i : LET c == MAdd(r, MPow2(nb + 1 - i)) IN IF MCmp(MMul(c, c), a) <= 0 THEN c ELSE r,
+              <<>>, [i \in 1 .. nb + 1 |-> i])
+MISqrtCeil(a) == LET r == MISqrt(a) IN IF MCmp(MMul(r, r), a) = 0 THEN r ELSE MAdd(r, <<1>>)
+
 -----------------------------------------------------------------------------
 \* signed
 W(neg, mag) == [neg |-> neg /\ mag # <<>>, mag |-> mag]
